@@ -417,6 +417,39 @@ class World:
 
             def undo():
                 s.bases.insert(pos, rs[j])
+        elif code == "rmbs":
+            # several bases removed in ONE call
+            i, js = op[1], tuple(op[2]); s = rs[i]
+            kind = "remove-bases-multi"
+            line = "%s.remove_bases(%s)" % (var[i], ", ".join(var[j] for j in js))
+            saved_bases = list(s.bases)
+            for j in js:
+                s.bases.remove(rs[j])
+            edited = [s] + [rs[j] for j in js]
+            try:
+                R.check_all_mro()
+            except MROError:
+                kind = "remove-bases-multi-bad"
+                expect_reject = True
+
+            def undo():
+                s.bases[:] = saved_bases
+        elif code == "addbs":
+            # several bases added in ONE call: appended in the order given
+            i, js = op[1], tuple(op[2]); s = rs[i]
+            line = "%s.add_bases(%s)" % (var[i], ", ".join(var[j] for j in js))
+            saved_bases = list(s.bases)
+            s.bases.extend(rs[j] for j in js)
+            edited = [s] + [rs[j] for j in js]
+            try:
+                R.check_all_mro()
+                kind = "add-bases-multi"
+            except MROError:
+                kind = "add-bases-multi-bad"
+                expect_reject = True
+
+            def undo():
+                s.bases[:] = saved_bases
         elif code == "cache":
             i = op[1]; s = rs[i]
             kind = "set-cache"
@@ -804,13 +837,15 @@ def prefix_keys(spec, history):
     return r
 
 
-def run_case(res, spec, history, all_prefixes=False):
+def run_case(res, spec, history, all_prefixes=False, extra_tags=()):
     """One case = (initial model, history): the live model is compared with the reference after the last edit.
     Histories whose shorter prefix already violates the invariant are not continued (the prefix is a case of its
-    own, where the violation is reported), so every failure is attributed to the edit that produced it."""
+    own, where the violation is reported), so every failure is attributed to the edit that produced it.
+    `extra_tags`: features of the history (part D), added to the tags of every failure of the case."""
+    extra_tags = tuple(extra_tags)
     if all_prefixes:
         for i in range(len(history) + 1):
-            if not run_case(res, spec, history[:i]):
+            if not run_case(res, spec, history[:i], extra_tags=extra_tags):
                 return False
         return True
     history = tuple(history)
@@ -828,7 +863,7 @@ def run_case(res, spec, history, all_prefixes=False):
             if _is_refusal(e):
                 res.monitor("build-refused:" + type(e).__name__, False)
             else:
-                res.fail(tags=("op:build", "sym:op-crash", "exc:" + type(e).__name__),
+                res.fail(tags=("op:build", "sym:op-crash", "exc:" + type(e).__name__) + extra_tags,
                          what="%s raised %r" % (line, e),
                          script=w.live.script("attempt(%r)" % line, "ok", drop_last=True), case=(key, text))
             _prefix_keys[(_spec_id(spec), history)] = "dead"
@@ -837,12 +872,12 @@ def run_case(res, spec, history, all_prefixes=False):
             res.monitor("edit-refused:" + kind, False)
             alive = False
         elif outcome.startswith("crash"):
-            res.fail(tags=("op:" + kind, "sym:op-crash", "exc:" + outcome[6:]),
+            res.fail(tags=("op:" + kind, "sym:op-crash", "exc:" + outcome[6:]) + extra_tags,
                      what="%s raised %s" % (line, outcome[6:]),
                      script=w.live.script("attempt(%r)" % line, "ok", drop_last=True), case=(key, text))
             alive = False
         elif outcome == "accepted-bad":
-            res.fail(tags=("op:" + kind, "sym:mro-accept"),
+            res.fail(tags=("op:" + kind, "sym:mro-accept") + extra_tags,
                      what="%s was accepted although the hierarchy has no C3 linearisation (CPython refuses it) "
                           "or is cyclic" % line,
                      script=w.live.script("attempt(%r)" % line, "rejected", drop_last=True), case=(key, text))
@@ -853,7 +888,7 @@ def run_case(res, spec, history, all_prefixes=False):
         # crashed the two sides are no longer in step: the crash itself is the finding)
         found = [] if outcome.startswith("crash") else check(w, kind, edited, build=not history)
         for fkey, tags, what, probe, expected in found:
-            res.fail(tags=tags, what=what, script=w.live.script(probe, expected), case=(key, text))
+            res.fail(tags=tuple(tags) + extra_tags, what=what, script=w.live.script(probe, expected), case=(key, text))
         _prefix_keys[(_spec_id(spec), history)] = "clean" if (alive and not found) else "dead"
     res.sample(text)
     return alive
@@ -1136,6 +1171,116 @@ def canonical_specs(n, level, **flags):
 VARIANTS = (dict(touch=False, items=False), dict(touch=True, items=True))
 
 
+# ---------------------------------------------------------------------------------------------- part D
+# Histories on the ordered base LIST of one space: a space T with 3-4 direct bases loses some of them (one
+# remove_bases call or several) and gains bases afterwards (bases removed before, or a space that never was
+# a base).  The linearisation must be the one of a fresh space created with the same ordered direct bases
+# (survivors in their original order, then the added ones in the order added) - which is what the reference
+# model derives from scratch.
+
+def baselist_spec(nb, structure, **flags):
+    """(spec, top, direct bases of top, spare).  Every space but T defines f and k, so the first space of
+    T's linearisation is visible in T.f / T.k as well as in T.bases; g (calling f) comes from the first base.
+    structure: 'roots'     - the bases and the spare space have no bases themselves
+               'shared'    - all of them derive from one common space G (G must stay last)
+               'spare-sub' - the spare space derives from the LAST direct base (adding it while that base is
+                             still a base of T, behind it, has no linearisation and must be refused)"""
+    if structure == "shared":
+        bases = [()] + [(0,)] * (nb + 1)
+        direct = tuple(range(1, nb + 1))
+        spare = nb + 1
+    else:
+        bases = [()] * nb + [((nb - 1,) if structure == "spare-sub" else ())]
+        direct = tuple(range(nb))
+        spare = nb
+    top = len(bases)
+    bases.append(direct)
+    others = tuple(range(top))
+    # members-first: modelx declines to define k in a base when a sub already derives k from another base
+    return (Spec(top + 1, bases, fdef=others, kdef=others, gdef=(direct[0],), order="members-first", **flags),
+            top, direct, spare)
+
+
+def _cur_bases(spec, top, h):
+    w = _ref_world(spec, h)
+    inv = {id(v): k for k, v in w.rs.items()}
+    return [inv[id(b)] for b in w.rs[top].bases]
+
+
+def baselist_histories(spec, top, direct, spare, rounds=1):
+    """{history: features}: every prefix of every remove-then-add history on T's base list.
+    Round 1: remove any non-empty subset of the direct bases (|R| >= 2: in one call, one by one in list order,
+    one by one in reverse order), then add one or two spaces out of (removed ones + spare) - two of them one by
+    one or in one call.  Round 2 (rounds=2): remove 1-2 of the present bases in one call, add one space."""
+    pool = tuple(direct) + (spare,)
+    out = {}
+
+    def removals(cur, light):
+        for r in range(1, (min(2, len(cur)) if light else len(cur)) + 1):
+            for rm in itertools.combinations(cur, r):
+                if r == 1:
+                    yield (("rmb", top, rm[0]),)
+                else:
+                    yield (("rmbs", top, rm),)
+                    if not light:
+                        yield tuple(("rmb", top, j) for j in rm)
+                        yield tuple(("rmb", top, j) for j in reversed(rm))
+
+    def adds(cands, light):
+        for j in cands:
+            yield (("addb", top, j),)
+        if not light:
+            for a, b in itertools.permutations(cands, 2):
+                yield (("addb", top, a), ("addb", top, b))
+                yield (("addbs", top, (a, b)),)
+
+    def register(h, start):
+        for i in range(start, len(h) + 1):
+            p = h[:i]
+            if p not in out:
+                nrem = sum((len(o[2]) if o[0] == "rmbs" else 1) for o in p[:-1] if o[0] in ("rmb", "rmbs"))
+                out[p] = ("hist:base-list", "removed-before:%d" % min(nrem, 3))
+
+    def rec(prefix, left):
+        light = left < rounds
+        cur = _cur_bases(spec, top, prefix)
+        for rops in removals(cur, light):
+            h = prefix + rops
+            cur2 = [j for j in cur if not any(j == o[2] or (o[0] == "rmbs" and j in o[2]) for o in rops)]
+            for aops in adds([j for j in pool if j not in cur2], light):
+                h2 = h + aops
+                register(h2, len(prefix) + 1)
+                if left > 1:
+                    rec(h2, left - 1)
+    rec((), rounds)
+    return out
+
+
+def baselist_tasks(thorough):
+    """'cases' tasks of part D (one list of histories, shortest first, per initial model)."""
+    if thorough:
+        plan = [(3, st, var, build, 2 if (st, build) == ("roots", "new_space") else 1)
+                for st in ("roots", "shared", "spare-sub") for var in VARIANTS
+                for build in ("new_space", "add_bases")]
+        plan += [(4, st, var, build, 1)
+                 for st in ("roots", "shared", "spare-sub") for var in VARIANTS
+                 for build in ("new_space", "add_bases")]
+    else:
+        plan = [(3, st, var, build, 1)
+                for st in ("roots", "shared", "spare-sub") for var in VARIANTS
+                for build in (("new_space", "add_bases") if st == "roots" else ("new_space",))]
+        plan += [(4, "roots", VARIANTS[1], "new_space", 1)]
+    tasks, desc = [], []
+    for nb, st, var, build, rounds in plan:
+        spec, top, direct, spare = baselist_spec(nb, st, build=build, **var)
+        hs = baselist_histories(spec, top, direct, spare, rounds)
+        items = sorted(hs.items(), key=lambda kv: len(kv[0]))       # stable: prefixes before extensions
+        for ch in chunks([(spec, h, False, tags) for h, tags in items], 60):
+            tasks.append(("cases", ch, "base-list histories, %d direct bases (%s)" % (nb, st)))
+        desc.append((nb, st, "touch" if var["touch"] else "no-read", build, rounds, len(items)))
+    return tasks, desc
+
+
 def work(task, sub):
     """worker: one batch of cases"""
     sub.exhaustive = True
@@ -1149,12 +1294,13 @@ def work(task, sub):
                 break
             run_case(sub, sp, h)
     elif what == "cases":
-        for sp, h, full in task[1]:
+        for item in task[1]:
+            sp, h, full = item[:3]
             if sub.expired():
                 sub.exhaustive = False
                 sub.notes.append("budget ended in " + task[2])
                 break
-            run_case(sub, sp, h, all_prefixes=full)
+            run_case(sub, sp, h, all_prefixes=full, extra_tags=item[3] if len(item) > 3 else ())
     elif what == "api":
         _, n, build, dags = task
         if not mro_api_level(sub, n, build, dags):
@@ -1196,8 +1342,14 @@ def run(res, tier, seed):
         "DAGs on <= 4 spaces, and after every edit of all histories with (edits, spaces, vocabulary level, "
         "placement level) in %s; members: cells f, cells g calling f, ref k (plus model-level k), f and k defined "
         "in <= 2 spaces.  C: %d seeded random histories (3-5 spaces, 2-5 edits, nested layouts, def-style "
-        "formulas, 3 reference modes, checked after every edit)."
-        % (6 if thorough else 5, 5 if thorough else 4, [p[:4] for p in plan], nsample))
+        "formulas, 3 reference modes, checked after every edit).  D: base-list histories of a space T with 3 "
+        "or 4 ordered direct bases plus one spare space (all defining f and k; bases unrelated / with a common "
+        "base / spare derived from the last base): every non-empty subset of the bases removed (one "
+        "remove_bases call, one by one in both orders), then 1-2 of (removed + spare) added (one by one / one "
+        "add_bases call)%s; INH checked after every prefix."
+        % (6 if thorough else 5, 5 if thorough else 4, [p[:4] for p in plan], nsample,
+           ", then a second round (1-2 removed in one call, 1 added) for 3 unrelated bases" if thorough
+           else "; quick: 4 bases only unrelated, evaluated variant"))
     res.rule = (
         "DAGs: bases of node i = every ordered selection of nodes < i (every ordered-base DAG is isomorphic to "
         "one); in part B (DAG, placement) pairs are reduced up to relabelling.  Edits: define/redefine/override "
@@ -1207,6 +1359,8 @@ def run(res, tier, seed):
         "1-2 spaces; level 1 adds g and k in one space next to f.  Variants: no read before the last edit / all "
         "cells and ItemSpace [1] of every space evaluated before every edit.  Oracle: pure-Python model of the "
         "definitions, CPython C3, first definer wins, cache-free evaluator resolving names in the sub.  "
+        "Part D: the expected `bases` of T = C3 of (surviving direct bases in their original order + added "
+        "ones in the order added) = what a fresh space created with these ordered bases has.  "
         "Non-trivial: some space derives a member from a base before or after an edit (part A: the node has a "
         "base).  distinct = canonical (DAG, placement, flags, history).")
     res.exhaustive = True
@@ -1229,6 +1383,10 @@ def run(res, tier, seed):
                 specs = canonical_specs(n, plevel, build=build, order=order, touch=False, items=False)
                 for ch in chunks([(sp, (), False) for sp in specs], 40):
                     tasks.append(("cases", ch, "build-only layer, %d spaces" % n))
+    # ---- D (small and directed, hence before the broad layers): remove-then-add histories on the base list of a space with 3-4 direct bases
+    dtasks, ddesc = baselist_tasks(thorough)
+    tasks += dtasks
+    res.notes.append("base-list histories (direct bases, structure, variant, build, rounds, histories): %s" % ddesc)
     # ---- B1..B3: histories
     for length, n, vocab, plevel, variants in plan:
         for var in variants:
